@@ -895,7 +895,14 @@ class Family:
         for i, s in enumerate(shapes):
             yield self.prog(("if", s, self.groups(1), ("else", self.groups(1))), True, ("a",), f"predicate #{i}")
         if self.tier == "thorough":
-            yield from self.predicate_exhaustive()
+            # every predicate token sequence with up to 3 comparisons, and a seeded sample of those with 4
+            yield from self.predicate_exhaustive(3)
+            import os
+            import random
+            rnd = random.Random(int(os.environ.get("VERIF_SEED", "0") or 0))
+            four = [p for p in self.predicate_exhaustive(4) if p.label.count(" X") + p.label.count("X ") >= 0 and _leaves(p.label) == 4]
+            rnd.shuffle(four)
+            yield from four[:600]
 
     def predicate_exhaustive(self, max_leaves=4):
         """Every predicate token sequence with up to max_leaves comparisons built from the
@@ -950,6 +957,10 @@ class Family:
         yield Prog(b.ident("e5"), b.string("salt"), [b.ident("s1")],
                    ("if", [("cmp", "KW_EQ", ("id", b.ident("aaa")), ("id", b.ident("zzz")))], self.groups(1), None),
                    "identifier compared with identifier")
+
+
+def _leaves(label: str) -> int:
+    return label.split().count("X")
 
 
 # ------------------------------------------------------------------ production coverage
